@@ -953,6 +953,10 @@ def expect(w, i, spec=None):
     rows = _limit_rows(w, E.mjCNSTR_LIMIT_JOINT if isj else E.mjCNSTR_LIMIT_TENDON, oid)
     if L['fragile'] or L['both']:
       return Result('none', level='isolation', note='limit-fragile' if L['fragile'] else 'limit-both-sides')
+    if not isj and int(m.ten_J_rownnz[oid]) == 0:
+      # a tendon that no degree of freedom moves has an empty Jacobian row: the engine instantiates no limit
+      # constraint for it, and the sensor is defined through "the corresponding limit constraint"
+      return Result('none', level='isolation', note='limit-immobile-tendon')
     if bool(rows) != bool(L['active']):
       return Result('custom', cls='limit', check=lambda got: (False, 'limit of %s %d: reference says active=%s but '
                     'mjData has %d limit rows' % ('joint' if isj else 'tendon', oid, L['active'], len(rows))))
